@@ -1,6 +1,8 @@
 package main
 
 import (
+	"time"
+	"sync"
 	crand "crypto/rand"
 	"fmt"
 	"math"
@@ -348,11 +350,106 @@ func readerFor(a opArgs) *scripted {
 	if v, ok := a["extra"]; ok { // 1..3 stray bytes after the last word, then EOF
 		s.bytes = append(s.bytes, decHex(v)...)
 	}
+	if v, ok := a["resume"]; ok { // a transient failure where the tape ends, then more bytes
+		f := strings.SplitN(v, ":", 2)
+		if len(f) == 2 {
+			k, _ := strconv.Atoi(f[0])
+			s.resumeErr = errorKinds[k%len(errorKinds)]
+			s.resumeBytes = wordsToBytes(decWords(f[1]))
+		}
+	}
 	if v, ok := a["chunk"]; ok { // split reads into random short reads
 		n, _ := strconv.ParseUint(v, 10, 64)
 		s.chunkSeed = &rng{s: n}
 	}
 	return s
+}
+
+// entropyValues: what Tokenize may be handed as the entropy of the password it decodes — including
+// what Entropy() reports for degenerate recipes (an empty alphabet: -Inf or NaN).
+var entropyValues = []float32{7.25, 12.5, 0, 0.25, 300.5, 65536, 1, float32(math.Inf(1)), float32(math.Inf(-1)), float32(math.NaN()),
+	float32(math.Copysign(0, -1)), -3.5, math.MaxFloat32, math.SmallestNonzeroFloat32}
+
+// slowReaderFor: the operation's source, pausing before one of its reads ("slow=<read>:<ms>").
+func slowReaderFor(a opArgs) *scripted {
+	s := readerFor(a)
+	f := strings.Split(a["slow"], ":")
+	if len(f) == 2 {
+		s.pauseAt, _ = strconv.Atoi(f[0])
+		ms, _ := strconv.Atoi(f[1])
+		s.pause = time.Duration(ms) * time.Millisecond
+	}
+	return s
+}
+
+// concurrently runs f in n goroutines at once (a start barrier, panics recovered) and returns the
+// first complaint, "" when there is none.
+func concurrently(n int, f func(g int) string) string {
+	start := make(chan struct{})
+	res := make([]string, n)
+	var wg sync.WaitGroup
+	for g := 0; g < n; g++ {
+		wg.Add(1)
+		go func(g int) {
+			defer wg.Done()
+			defer func() {
+				if r := recover(); r != nil {
+					res[g] = fmt.Sprintf("panic(%v)", r)
+				}
+			}()
+			<-start
+			res[g] = f(g)
+		}(g)
+	}
+	close(start)
+	wg.Wait()
+	for _, r := range res {
+		if r != "" {
+			return r
+		}
+	}
+	return ""
+}
+
+// tokenizeConcurrently: several callers decoding DIFFERENT passwords at the same moment each get
+// the slices of their own password (C12), and several callers indexing and decoding token
+// sequences at the same moment each get their own tokens back (C11). The expected answers are
+// the ones the same calls give one after the other.
+func tokenizeConcurrently(pw string, idx spg.Indices, ent float32) string {
+	type job struct {
+		pw   string
+		idx  spg.Indices
+		want string
+		err  bool
+	}
+	decoy := strings.Map(func(r rune) rune {
+		if r == 'Q' {
+			return 'W'
+		}
+		return 'Q'
+	}, pw)
+	jobs := []job{{pw: pw, idx: append(spg.Indices{}, idx...)}, {pw: decoy, idx: append(spg.Indices{}, idx...)},
+		{pw: pw + "tail", idx: append(spg.Indices{}, idx...)}, {pw: "zz" + decoy, idx: append(spg.Indices{}, idx...)}}
+	for i := range jobs {
+		q, err := spg.Tokenize(jobs[i].pw, jobs[i].idx, ent)
+		jobs[i].err = err != nil
+		if err == nil {
+			jobs[i].want = showTokens(q.Tokens())
+		}
+	}
+	return concurrently(len(jobs), func(g int) string {
+		j := jobs[g]
+		for round := 0; round < 60; round++ {
+			q, err := spg.Tokenize(j.pw, j.idx, ent)
+			if (err != nil) != j.err {
+				return fmt.Sprintf("caller %d round %d: error status changed", g, round)
+			}
+			if err == nil && showTokens(q.Tokens()) != j.want {
+				return fmt.Sprintf("caller %d round %d: got %s, alone it gets %s", g, round, showTokens(q.Tokens()), j.want)
+			}
+		}
+		return ""
+	})
 }
 
 // panicLine classifies a panic of the library. The two panics the library documents are
@@ -526,6 +623,7 @@ type executor struct {
 	usage   *string
 	opgen   string // path of the opgen binary
 	tmpdir  string
+	childEnv []string // environment of the next opgen run (nil: inherit)
 }
 
 func newExecutor() *executor {
@@ -714,6 +812,9 @@ func callerBuffer(words []string) []string {
 	return b
 }
 
+// calls of the harness's caller-written separator function since it was last reset
+var customSepCalls int
+
 var presets = map[string]spg.SFFunction{
 	"none": spg.SFNone, "d1": spg.SFDigits1, "d2": spg.SFDigits2, "dna1": spg.SFDigitsNoAmbiguous1,
 	"dna2": spg.SFDigitsNoAmbiguous2, "sym": spg.SFSymbols, "ds": spg.SFDigitsSymbols,
@@ -749,6 +850,7 @@ func applySep(r *spg.WLRecipe, s string) {
 		}
 		ent := spg.FloatE(math.Log2(float64(d)))
 		r.SeparatorFunc = func() (string, spg.FloatE) {
+			customSepCalls++
 			return outs[spg.VerifRandomUint32n(uint32(len(outs)))], ent
 		}
 	}
@@ -988,6 +1090,15 @@ func (e *executor) exec1(line, lean string) string {
 				oracle += " REENTRANCY-DEPENDENT"
 			}
 		}
+		if a["slow"] != "" && !ro.panicked {
+			var p2 *spg.Password
+			var err2 error
+			ro2 := withReader(slowReaderFor(a), func() { p2, err2 = r.Generate() })
+			capt.take()
+			if ro2.panicked || (err2 == nil) != (err == nil) || (p != nil && p2 != nil && (p2.String() != p.String() || p2.Entropy != p.Entropy)) || ro2.used != ro.used {
+				oracle += fmt.Sprintf(" TIMING-DEPENDENT(slow=%s: err=%v used=%d; prompt source: err=%v used=%d)", a["slow"], err2, ro2.used, err, ro.used)
+			}
+		}
 		return genLine("chargen", lean, p, err, ro, warn, unk, 3, secretsOf(p, nil)) + oracle + after()
 
 	case "newcr":
@@ -1093,6 +1204,17 @@ func (e *executor) exec1(line, lean string) string {
 			spg.SFNone = func() (string, spg.FloatE) { return "#", 4.5 }
 			defer func() { spg.SFNone = oldNone }()
 		}
+		if re := a["reassign"]; re != "" {
+			// likewise for every other preset variable: the recipe below holds the VALUE a preset had
+			stub := spg.SFFunction(func() (string, spg.FloatE) { return "#", 4.5 })
+			vars := map[string]*spg.SFFunction{"none": &spg.SFNone, "d1": &spg.SFDigits1, "d2": &spg.SFDigits2, "dna1": &spg.SFDigitsNoAmbiguous1,
+				"dna2": &spg.SFDigitsNoAmbiguous2, "sym": &spg.SFSymbols, "ds": &spg.SFDigitsSymbols}
+			if v := vars[re]; v != nil {
+				old := *v
+				*v = stub
+				defer func() { *v = old }()
+			}
+		}
 		wl, werr, after := e.wordList(a)
 		if werr != nil {
 			return "err empty-list"
@@ -1153,10 +1275,16 @@ func (e *executor) exec1(line, lean string) string {
 		}
 		var p *spg.Password
 		var err error
+		customSepCalls = 0
 		ro := withReader(s, func() { p, err = r.Generate() })
+		sepCalls := customSepCalls
 		warn, _, unk := classifyOutput(capt.take())
 		opCtx.set, opCtx.noList, opCtx.length, opCtx.alphabetEmpty, opCtx.used = true, wl == nil || wl.Size() == 0, a.int("L"), false, ro.used
 		mut := ""
+		if strings.HasPrefix(a["sep"], "custom:") && !ro.panicked && err == nil && p != nil && a.int("L") >= 1 && sepCalls < a.int("L")-1 {
+			// each separator is a fresh draw from the separator function: one call per gap at least
+			mut += fmt.Sprintf(" SEP-NOT-FRESH(%d gaps, the separator function was called %d times)", a.int("L")-1, sepCalls)
+		}
 		if before.Length != r.Length || before.SeparatorChar != r.SeparatorChar || before.Capitalize != r.Capitalize ||
 			(before.SeparatorFunc == nil) != (r.SeparatorFunc == nil) || before.Size() != r.Size() {
 			mut = " MUTATED=wlrecipe-fields"
@@ -1224,6 +1352,15 @@ func (e *executor) exec1(line, lean string) string {
 				reentryBlocked = false
 			} else if ro2.panicked || p2 == nil || showTokens(p2.Tokens()) != showTokens(p.Tokens()) || p2.Entropy != p.Entropy {
 				so += " REENTRANCY-DEPENDENT"
+			}
+		}
+		if a["slow"] != "" && !ro.panicked {
+			var p2 *spg.Password
+			var err2 error
+			ro2 := withReader(slowReaderFor(a), func() { p2, err2 = r.Generate() })
+			capt.take()
+			if ro2.panicked || (err2 == nil) != (err == nil) || (p != nil && p2 != nil && (showTokens(p2.Tokens()) != showTokens(p.Tokens()) || p2.Entropy != p.Entropy)) || ro2.used != ro.used {
+				so += fmt.Sprintf(" TIMING-DEPENDENT(slow=%s: err=%v used=%d; prompt source: err=%v used=%d)", a["slow"], err2, ro2.used, err, ro.used)
 			}
 		}
 		// the same recipe on the same bytes makes the same choices (C09)
@@ -1302,6 +1439,11 @@ func (e *executor) exec1(line, lean string) string {
 			}
 			return "err toolarge" + unknownField(unk)
 		}
+		for _, v := range vals {
+			if c := utf8.RuneCountInString(v); c > 255 {
+				return fmt.Sprintf("ok idx=%s ROUNDTRIP-FAIL=lossy-index(a token of %d characters was given an index entry)", encHex(ix), c) + unknownField(unk)
+			}
+		}
 		kind := "na"
 		if len(ts) > 0 {
 			kind = strconv.Itoa(int(ts.Kind()))
@@ -1315,7 +1457,7 @@ func (e *executor) exec1(line, lean string) string {
 				pw += v
 			}
 			// the entropy is carried, not interpreted: any value a recipe can report, 0 bits included
-			ent := []float32{12.5, 0, 0.25, 300.5, 65536, 1}[len(pw)%6]
+			ent := entropyValues[len(pw)%len(entropyValues)]
 			var q spg.Password
 			var terr error
 			ro2 := withReader(&scripted{}, func() { q, terr = spg.Tokenize(pw, ix, ent) })
@@ -1324,7 +1466,7 @@ func (e *executor) exec1(line, lean string) string {
 				rt = " ROUNDTRIP-FAIL=panic"
 			} else if terr != nil {
 				rt = " ROUNDTRIP-FAIL=error"
-			} else if !reflect.DeepEqual(q.Tokens(), ts) || q.Entropy != ent {
+			} else if !reflect.DeepEqual(q.Tokens(), ts) || math.Float32bits(q.Entropy) != math.Float32bits(ent) {
 				rt = " ROUNDTRIP-FAIL=differs"
 			}
 			// only sequences whose every token has 1..255 characters are promised to round-trip
@@ -1332,6 +1474,15 @@ func (e *executor) exec1(line, lean string) string {
 				if c := utf8.RuneCountInString(v); c < 1 || c > 255 {
 					rt = ""
 				}
+			}
+		}
+		if len(ts) > 0 && rt == "" {
+			pw := ""
+			for _, v := range vals {
+				pw += v
+			}
+			if c := tokenizeConcurrently(pw, ix, 1.5); c != "" {
+				rt = " CONCURRENCY-DEPENDENT(" + c + ")"
 			}
 		}
 		res := fmt.Sprintf("ok idx=%s kind=%s%s%s", encHex(ix), kind, rt, unknownField(unk))
@@ -1344,7 +1495,8 @@ func (e *executor) exec1(line, lean string) string {
 	case "tokenize":
 		pw := string(decHex(a["pw"]))
 		idx := spg.Indices(decHex(a["idx"]))
-		ent := float32(7.25)
+		// the entropy is carried, not interpreted: whatever a recipe can report, bit for bit
+		ent := entropyValues[(len(pw)+len(a["idx"]))%len(entropyValues)]
 		var q spg.Password
 		var err error
 		if len(idx) == 0 {
@@ -1412,8 +1564,11 @@ func (e *executor) exec1(line, lean string) string {
 				}
 			}
 		}
-		if q.Entropy != ent {
-			l += " ENTROPY-CHANGED"
+		if math.Float32bits(q.Entropy) != math.Float32bits(ent) {
+			l += fmt.Sprintf(" ENTROPY-CHANGED(passed %v, carries %v)", ent, q.Entropy)
+		}
+		if c := tokenizeConcurrently(pw, idx, ent); c != "" {
+			l += " CONCURRENCY-DEPENDENT(" + c + ")"
 		}
 		// the index belongs to the caller: reusing it must not change the password already decoded
 		before := showTokens(q.Tokens())
@@ -1529,6 +1684,27 @@ func (e *executor) execCli(a opArgs, lean string) string {
 		if ft, ok := a["filetext"]; ok {
 			content = decCps(ft) // the file's text as given: any space runs, no final newline added
 		}
+		childEnv := os.Environ()
+		if fn, ok := a["fname"]; ok {
+			name := decCps(fn)
+			path = filepath.Join(e.tmpdir, name)
+			envA := map[string]string{}
+			if a["env"] == "1" {
+				envA = map[string]string{"A": "zzz", "USD": "1", "HOME": "/nonexistent-home"}
+				childEnv = append(childEnv, "A=zzz", "USD=1", "HOME=/nonexistent-home")
+			} else {
+				childEnv = append(childEnv, "A=", "USD=")
+			}
+			// decoys where a name taken as a template would lead: another list entirely
+			for _, alt := range []string{os.Expand(name, func(k string) string { return envA[k] }), strings.TrimSpace(name), strings.ReplaceAll(name, "%41", "A")} {
+				if alt != name && alt != "" && !strings.ContainsAny(alt, "/") {
+					os.WriteFile(filepath.Join(e.tmpdir, alt), []byte("WRONGLIST\nWRONGLIST2\n"), 0o644)
+					defer os.Remove(filepath.Join(e.tmpdir, alt))
+				}
+			}
+			defer os.Remove(path)
+		}
+		e.childEnv = childEnv
 		if a["pipe"] == "1" {
 			// the word file need not be a regular file: a named pipe (process substitution, /dev/stdin)
 			path = filepath.Join(e.tmpdir, "words.fifo")
@@ -1553,6 +1729,10 @@ func (e *executor) execCli(a opArgs, lean string) string {
 		}
 	}
 	cmd := exec.Command(e.opgen, argv...)
+	if e.childEnv != nil {
+		cmd.Env = e.childEnv
+		e.childEnv = nil
+	}
 	var so, se strings.Builder
 	cmd.Stdout, cmd.Stderr = &so, &se
 	err := cmd.Run()
